@@ -222,6 +222,44 @@ def run(chk, tier, seed):
         for desc, evs in rs_runs:
             chk.case(("readstack", desc), nontrivial=len(evs) > 1)
         readtrace.validate(chk, rs_runs, scratch, "readstack")
+        # ViewArith.tla: the view arithmetic for parameters no container produces (any skip / take / leave / total), through the real
+        # FileView (h_view records the position it asks its media for); judged against the walk-defined requirement RTaken
+        rv = common.tlc("ViewArith", "ViewArith.cfg")
+        chk.add_tlc("ViewArith.cfg", rv)
+        if rv.violated:
+            chk.violation("model:viewarith:" + rv.violated, "ViewArith.tla: the closed formula differs from the walk: %s\n%s" % (rv.violated, "\n".join(rv.cex[:20])),
+                          dict(spec="ViewArith.tla"))
+        vcases = [dict(w=c["w"], x=c["x"]) for c in rv.cases]
+        import random as _r
+        rr = _r.Random(4)
+        for _ in range(300 if quick else 3000):
+            take = rr.choice([1, 2, 7, 10, 18, 255, 256, 800])
+            vcases.append(dict(w=dict(skip=rr.choice([0, 1, 31, 32, 8192, 100000]), take=take, leave=rr.choice([0, 1, take, 3 * take, 1000]),
+                                      total=rr.choice([1, take, 10 * take, 2500])), x=rr.choice([0, take - 1, take, 2 * take + 1, rr.randrange(2600)])))
+        import subprocess as _sp
+        inp = "".join("%d %d %d %d %d\n" % (c["w"]["skip"], c["w"]["take"], c["w"]["leave"], c["w"]["total"], c["x"]) for c in vcases)
+        pv = _sp.run([common.exe(bdir, "h_view")], input=inp, stdout=_sp.PIPE, stderr=_sp.PIPE, text=True, timeout=600, env=dict(os.environ, **common.SAN_ENV))
+        outs = pv.stdout.split("\n")
+        if pv.returncode != 0 or len(outs) < len(vcases):
+            chk.violation("h_view-crash", "h_view died after %d of %d lines: rc=%s %s" % (len(outs) - 1, len(vcases), pv.returncode, pv.stderr[-800:]), dict(line=len(outs)))
+        else:
+            vev = [dict(e="view", w=c["w"], x=c["x"], obs=(int(o) if o.lstrip("-").isdigit() else -2)) for c, o in zip(vcases, outs)]
+            vtrace = os.path.join(scratch, "view-trace.ndjson")
+            with open(vtrace, "w") as f:
+                for e in vev:
+                    f.write(json.dumps(e) + "\n")
+            okv, trv = common.validate_trace("TraceViewArith", "TraceViewArith.cfg", vtrace, timeout=1800)
+            chk.add_tlc("TraceViewArith", trv)
+            chk.traces += len(vev)
+            if not okv or not trv.verdicts:
+                raise common.MachineryError("TraceViewArith did not consume the whole trace:\n" + trv.output[-2000:])
+            for ln in sorted(trv.verdicts[-1]["bad"]):
+                e = vev[ln - 1]
+                chk.violation("view-arith", "FileView(skip=%d, take=%d, leave=%d, total=%d).read_block(%d) asked the media for sector %d" %
+                              (e["w"]["skip"], e["w"]["take"], e["w"]["leave"], e["w"]["total"], e["x"], e["obs"]), dict(event=e))
+            for e in vev:
+                chk.case(("view", json.dumps(e["w"], sort_keys=True), e["x"]))
+            chk.extra["view_arith_cases"] = len(vev)
         # MMB status bytes: slot i has status i (i in 0..255); data exists for slots 0 and 15 only
         st_path = os.path.join(scratch, "status.mmb")
         status = {i: i for i in range(256)}
